@@ -38,6 +38,23 @@ theorem C07_arity_preserved (ic : Tree → Tree → Bool) (n : Nat) (f : List Tr
 theorem C07_ids_preserved (ic : Tree → Tree → Bool) (n : Nat) (f : List Tree) (hids : IdsNodup f) :
     IdsNodup (pruneLoop ic n f) := pruneLoop_idsNodup ic n f hids
 
+/-- **C07 (the parent of a surviving structure is its nearest surviving former ancestor).**
+`P21.ancestors f i` lists the identifiers of the proper ancestors of structure `i`, nearest first;
+pruning only deletes identifiers from every ancestor chain. -/
+theorem C07_nearest_surviving_ancestor (ic : Tree → Tree → Bool) (n : Nat) (f : List Tree) (hids : IdsNodup f) :
+    ∀ s' ∈ preL (pruneLoop ic n f), P21.ancestors (pruneLoop ic n f) s'.id =
+      (P21.ancestors f s'.id).filter (fun a => a ∈ (preL (pruneLoop ic n f)).map Tree.id) :=
+  P21.pruneLoop_ancestors ic n f hids
+
+/-- **C07 (pixels of removed structures pass to that ancestor).** The own pixels of a surviving
+structure are its former own pixels plus the own pixels of exactly those removed structures whose
+nearest surviving former ancestor it is. -/
+theorem C07_own_transfer (ic : Tree → Tree → Bool) (n : Nat) (f : List Tree) (hids : IdsNodup f) :
+    ∀ s' ∈ preL (pruneLoop ic n f), ∃ s ∈ preL f, s.id = s'.id ∧
+      s'.own.Perm (s.own ++ ((preL f).filter (fun r => r.id ∉ (preL (pruneLoop ic n f)).map Tree.id ∧
+        (P21.ancestors f r.id).find? (fun a => a ∈ (preL (pruneLoop ic n f)).map Tree.id) = some s.id)).flatMap Tree.own) :=
+  P21.pruneLoop_own_transfer ic n f hids
+
 /-- **C07 (idempotence).** Pruning again with the same criteria changes nothing. -/
 theorem C07_idempotent (ic : Tree → Tree → Bool) (io : Tree → Bool) (f : List Tree) :
     prune ic io (prune ic io f) = prune ic io f := prune_idempotent' ic io f
